@@ -14,6 +14,7 @@ def add(pid, technique, text, note):
 
 
 exec(open(os.path.join(HERE, 'tools', 'manifest_table.py')).read())
+exec(open(os.path.join(HERE, 'tools', 'manifest_tail.py')).read())
 
 BASELINE = ("cd /repo && /venv/bin/python -m pytest -ra -q -p no:cacheprovider --timeout=900 "
             "--continue-on-collection-errors")
